@@ -4,7 +4,7 @@ import random
 
 import streams
 from checks._folcommon import tabs_of
-from common import sub_seed
+from common import sub_seed, size
 
 
 def oracle(rec):
@@ -51,7 +51,7 @@ def run(rep, tier, seed):
     rep.extra["known_finding_D14_witness_reproduces"] = bool(wbad)
     if wbad and wbad.get("quantified") and not wbad.get("contradictory_data"):
         rep.enable_known("D14")
-    n = 80 if tier == "quick" else 1500
+    n = size(tier, 80, 1500)
     for name, quant in (("fol-qf", False), ("quant", True)):
         progs = [streams.gen_fol_program(seed + 41, k, quant=quant, n_ops=(0, 6)) for k in range(n)]
         for k, p in enumerate(progs):
